@@ -95,8 +95,58 @@ fn check_hash_dxdy(d: u8) {
   kani::cover!(x > 7.5 && y.abs() < 0.4, "east half of base cell 4");
 }
 
+// ---- hash_with_dxdy, discretisation tail: shift_rotate_scale replaced by its contract ---------------
+static mut G_US: f64 = 0.0;
+static mut G_VS: f64 = 0.0;
+fn ghost_srs(_l: &Layer, xy: &mut (f64, f64)) { unsafe { xy.0 = G_US; xy.1 = G_VS; } }
+/// position of base cell b in the rotated frame (I, J) = (floor(u/2), floor(v/2)), u = x+y+1, v = y+9-x;
+/// base cell 4 appears twice (x in [0,1) and x in (7,8]): `east` selects the copy at x ~ 8
+fn base_cell_ij(b: u8, east_copy_of_4: bool) -> (u64, u64) {
+  let q = (b & 3) as u64;
+  match b >> 2 { 0 => (q + 1, 4 - q), 1 => if b == 4 && east_copy_of_4 { (4, 0) } else { (q, 4 - q) }, _ => (q, 3 - q) }
+}
+/// For every point STRICTLY inside the net (not within rounding of a glued gore edge) and its exact
+/// rotated/scaled coordinates (us, vs): hash_with_dxdy returns a cell < 12*4^d whose unit square in
+/// the rotated frame contains (us, vs) [i.e. the cell contains the position], with dx = us - floor,
+/// dy = vs - floor in [0, 1).
+fn check_hdxdy_tail(d: u8) {
+  let l = Layer::new(d);
+  let (x, y) = choose_point();
+  let strictly_inside = !(y > 1.0 || y < -1.0) || { let q = (x * 0.5) as u8; let apex = (2 * (q & 3) + 1) as f64; (x - apex).abs() <= 2.0 - y.abs() - 1e-9 };
+  kani::assume(strictly_inside && y < 2.0 - 1e-9 && y > -2.0 + 1e-9);
+  let c = 0.5 * ((1u64 << d) as f64);
+  let yp = y + 1.0;
+  let (us, vs) = ((x + yp) * c, (yp + (8.0 - x)) * c);
+  unsafe { G_US = us; G_VS = vs; }
+  let (h, dx, dy) = l.hash_with_dxdy(kani::any(), kani::any());
+  assert!(h < sp::n_hash(d), "C03 hash_with_dxdy cell < 12*4^depth");
+  assert!(dx >= 0.0 && dx < 1.0 && dy >= 0.0 && dy < 1.0, "C03 offsets in [0, 1)");
+  // expected cell, from the integer geometry of the rotated frame (no loop: keeps the recursion of
+  // depth0_bits cheap to unwind): unit square [it, it+1) x [jt, jt+1) containing (us, vs)
+  let n = 1u64 << d;
+  let (it, jt) = (us as u64, vs as u64);
+  let (ib, jb) = (it >> d, jt >> d);                     // base cell coordinates
+  // when rounding puts the point exactly on the upper border of a base cell, (ib, jb) is not a base cell
+  // of the net (ib + jb = 6 or 7, or 2): these are the rare arms of depth0_bits (k in {-2,-1,3,4}), which
+  // move to an adjacent cell; there only range obligations are stated
+  let is_base_cell = (ib + jb == 5 && ib >= 1 && ib <= 4) || (ib + jb == 4 && ib <= 4) || (ib + jb == 3 && ib <= 3);
+  if is_base_cell {
+    let row = 5 - (ib + jb);                                 // 0 north, 1 equatorial, 2 south
+    let col = if row == 0 { ib - 1 } else { ib & 3 };
+    let b = (4 * row + col) as u8;
+    let expect = l.build_hash((b as u64) << (2 * d as u32), (it & (n - 1)) as u32, (jt & (n - 1)) as u32); // real codec (C04/C18); build_hash carries no injected contract, so no spec loop to unwind
+    assert!(h == expect, "C03 the returned cell is the one whose unit square (rotated, scaled frame) contains the position");
+    assert!(dx == us - (it as f64) && dy == vs - (jt as f64), "C03 offsets are the position relative to the south corner of the returned cell");
+    kani::cover!(ib == 4, "west half of base cell 4 seen at x in ]7, 8[");
+    kani::cover!(row == 0); kani::cover!(row == 2);
+  } else {
+    kani::cover!(true, "rare arm of depth0_bits (point on the upper border of a base cell)");
+  }
+}
+
 macro_rules! per_depth {
-  ($($d:literal => $c:ident, $p:ident, $h:ident, $s:ident, $f:ident);* $(;)?) => { $(
+  ($($d:literal => $c:ident, $p:ident, $h:ident, $s:ident, $f:ident, $t:ident);* $(;)?) => { $(
+    #[kani::proof] #[kani::stub(crate::proj, ghost_proj)] #[kani::stub(Layer::shift_rotate_scale, ghost_srs)] #[kani::unwind(3)] fn $t() { check_hdxdy_tail($d) }
     #[kani::proof] #[kani::unwind(33)] fn $c() { check_center($d) }
     #[kani::proof] #[kani::unwind(33)] fn $p() { check_center_panic($d) }
     #[kani::proof] #[kani::unwind(4)] fn $s() { check_srs($d) }
@@ -105,11 +155,11 @@ macro_rules! per_depth {
   )* }
 }
 per_depth! {
-  0 => geom_center_d00, geom_panic_d00, geom_hdxdy_d00, geom_srs_d00, geom_srsfin_d00; 1 => geom_center_d01, geom_panic_d01, geom_hdxdy_d01, geom_srs_d01, geom_srsfin_d01;
-  2 => geom_center_d02, geom_panic_d02, geom_hdxdy_d02, geom_srs_d02, geom_srsfin_d02; 3 => geom_center_d03, geom_panic_d03, geom_hdxdy_d03, geom_srs_d03, geom_srsfin_d03;
-  8 => geom_center_d08, geom_panic_d08, geom_hdxdy_d08, geom_srs_d08, geom_srsfin_d08; 9 => geom_center_d09, geom_panic_d09, geom_hdxdy_d09, geom_srs_d09, geom_srsfin_d09;
-  16 => geom_center_d16, geom_panic_d16, geom_hdxdy_d16, geom_srs_d16, geom_srsfin_d16; 17 => geom_center_d17, geom_panic_d17, geom_hdxdy_d17, geom_srs_d17, geom_srsfin_d17;
-  24 => geom_center_d24, geom_panic_d24, geom_hdxdy_d24, geom_srs_d24, geom_srsfin_d24; 29 => geom_center_d29, geom_panic_d29, geom_hdxdy_d29, geom_srs_d29, geom_srsfin_d29;
+  0 => geom_center_d00, geom_panic_d00, geom_hdxdy_d00, geom_srs_d00, geom_srsfin_d00, geom_hdtail_d00; 1 => geom_center_d01, geom_panic_d01, geom_hdxdy_d01, geom_srs_d01, geom_srsfin_d01, geom_hdtail_d01;
+  2 => geom_center_d02, geom_panic_d02, geom_hdxdy_d02, geom_srs_d02, geom_srsfin_d02, geom_hdtail_d02; 3 => geom_center_d03, geom_panic_d03, geom_hdxdy_d03, geom_srs_d03, geom_srsfin_d03, geom_hdtail_d03;
+  8 => geom_center_d08, geom_panic_d08, geom_hdxdy_d08, geom_srs_d08, geom_srsfin_d08, geom_hdtail_d08; 9 => geom_center_d09, geom_panic_d09, geom_hdxdy_d09, geom_srs_d09, geom_srsfin_d09, geom_hdtail_d09;
+  16 => geom_center_d16, geom_panic_d16, geom_hdxdy_d16, geom_srs_d16, geom_srsfin_d16, geom_hdtail_d16; 17 => geom_center_d17, geom_panic_d17, geom_hdxdy_d17, geom_srs_d17, geom_srsfin_d17, geom_hdtail_d17;
+  24 => geom_center_d24, geom_panic_d24, geom_hdxdy_d24, geom_srs_d24, geom_srsfin_d24, geom_hdtail_d24; 29 => geom_center_d29, geom_panic_d29, geom_hdxdy_d29, geom_srs_d29, geom_srsfin_d29, geom_hdtail_d29;
 }
 
 // ---- C19 bilinear interpolation (hash_with_dxdy replaced by its contract) -------------------------
